@@ -757,12 +757,12 @@ func main() {
 			add("corpus", nil, in)
 		}
 	}
+	// what the real bundle contains (ties Gen/RulesTable.v to what OPA loads; also needed to replay a single case)
+	rs, err := e.pqBundled.Eval(e.ctx)
+	must(err)
+	r := rs[0].Bindings["o"].(map[string]any)
+	out.Emit(map[string]any{"stream": "bundled", "bundled": strs(r["bundled"]), "bundled_aggregate": strs(r["bundled_aggregate"])})
 	if tier != "replay" {
-		// what the real bundle contains (ties Gen/RulesTable.v to what OPA loads)
-		rs, err := e.pqBundled.Eval(e.ctx)
-		must(err)
-		r := rs[0].Bindings["o"].(map[string]any)
-		out.Emit(map[string]any{"stream": "bundled", "bundled": strs(r["bundled"]), "bundled_aggregate": strs(r["bundled_aggregate"])})
 
 		// ---- exhaustive function level
 		for k := 0; k < 3; k++ {
